@@ -147,7 +147,7 @@ def Writer.write (w : Writer) (b : Bytes) : List Bytes × Writer :=
 
 inductive Status
   | eof              -- underlying stream ended at a record boundary (or close_notify)
-  | ueof             -- stream ended inside a record
+  | ueof             -- stream ended inside a record: inside its 5-byte header or inside its body
   | alert (n : Nat)  -- local fatal alert sent
   | remote (n : Nat) -- fatal alert received
 deriving DecidableEq, Repr
@@ -158,7 +158,7 @@ def readAll : Nat → Half → Nat → Bytes → Bytes × Status
   | 0, _, _, _ => ([], .eof)
   | fuel+1, h, warn, wire =>
     if wire.isEmpty then ([], .eof)
-    else if wire.length < 5 then ([], .eof)      -- EOF while reading a header is reported as plain EOF
+    else if wire.length < 5 then ([], .ueof)     -- EOF after 1..4 header bytes: io.ErrUnexpectedEOF (a truncated record)
     else
       let typ := wire.getD 0 0
       let vers := (wire.getD 1 0).toNat * 256 + (wire.getD 2 0).toNat
